@@ -350,6 +350,18 @@ func (r *Run) Finish(minNontrivial int) int {
 	for _, s := range sigs {
 		fmt.Printf("KNOWN-FINDING: property=%s sig=%s seen=%d -- %s\n", r.Prop, s, r.knownSeen[s], r.findings[s])
 	}
+	// listed findings this run's cases did not reproduce (rare situations, or found by the other engine of a
+	// two-engine check): still one line each, so that the list in force is visible in every run
+	var unseen []string
+	for s := range r.findings {
+		if _, ok := r.knownSeen[s]; !ok {
+			unseen = append(unseen, s)
+		}
+	}
+	sort.Strings(unseen)
+	for _, s := range unseen {
+		fmt.Printf("KNOWN-FINDING: property=%s sig=%s seen=0 (not reproduced by this run's cases) -- %s\n", r.Prop, s, r.findings[s])
+	}
 	// unlisted violations
 	var replayPaths []string
 	bySig := map[string]int{}
